@@ -160,24 +160,56 @@ def judge_run(ctx, tag, case, out, twin_out, ops, fi, nf, ndata, retry_ops, max_
             nf, op, jstar, jstar + d, got[d] if d < len(got) else "(missing)", want[d] if d < len(want) else "(nothing)"), [case], [out[:300]], twin_out[:300])
 
 
+def payload(b, short):
+    """fam_c20.rs show_payload: long payloads as <first 8 bytes>~<len>~<fnv1a-32>"""
+    if not short or len(b) <= 32:
+        return b.hex()
+    h = 0x811c9dc5
+    for x in b:
+        h = ((h ^ x) * 0x01000193) & 0xffffffff
+    return "%s~%d~%08x" % (b[:8].hex(), len(b), h)
+
+
+def bin_expect(d, ops, short):
+    """expected (result, position) of a pure next/read op list over a binary document, from the naive reference lexer"""
+    toks, end, _ = B.py_lex(d)
+    out = []
+    for j, op in enumerate(ops):
+        if j < len(toks):
+            t, _s, e = toks[j]
+            if short and t[:2] in ("Q:", "U:") and len(t) > 2 + 64:
+                t = t[:2] + payload(bytes.fromhex(t[2:]), True)
+            out.append((t, e))
+        elif end == "END" and op == "n":
+            out.append(("NONE", len(d)))
+        else:
+            break
+    return out
+
+
 class Lad:
     """collects (case, twin) pairs of one reader stream and judges them"""
 
     def __init__(self, ctx, kind, tag, retry_ops):
         self.ctx, self.kind, self.tag, self.retry_ops = ctx, kind, tag, retry_ops
-        self.cases, self.meta, self.twins = [], [], {}
+        self.cases, self.meta, self.twins, self.expects = [], [], {}, {}
 
     def line(self, cap, sched, d, ops):
         return "%s\t%d\t%s\t%s\t%s" % (self.kind, cap, sstr(sched), hexs(d), ",".join(ops))
 
-    def add(self, dim, cap, base, d, ops, faults, tries=3, retry_all=False, short=False):
-        """faults = [(fi, nf, kind)]; ops = plain op list (the pseudo-ops are added here)"""
+    def add(self, dim, cap, base, d, ops, faults, tries=3, retry_all=False, short=False, expect=None):
+        """faults = [(fi, nf, kind)]; ops = plain op list (the pseudo-ops are added here); expect = [(result, position | None)]:
+        what the first ops of the FAULT-FREE run return, by construction of the document (independent of the implementation)"""
         pre = (["H"] if short else []) + (["RA%d" % tries] if retry_all else (["R%d" % tries] if tries != 3 else []))
         tw = self.line(cap, base, d, pre + ops)
         if tw not in self.twins:
             self.twins[tw] = len(self.cases)
             self.cases.append(tw); self.meta.append(None)
         ti = self.twins[tw]
+        if expect is None and self.tag == "bin" and all(o in ("n", "r") for o in ops):
+            expect = bin_expect(d, ops, short)
+        if expect:
+            self.expects[ti] = (dim, expect)
         ro = self.retry_ops + (("n", "r") if retry_all else ())
         for fi, nf, kind in faults:
             self.cases.append(self.line(cap, faulty(base, fi, nf, kind), d, pre + ops))
@@ -187,6 +219,19 @@ class Lad:
         ctx = self.ctx
         impl, _ = ctx.correspond(stream, self.cases, nontrivial=lambda c, i: "ERR:100" in i, model=False)
         base = len(impl) - len(self.cases)
+        for ti, (dim, expect) in sorted(self.expects.items()):
+            o = impl[base + ti]
+            ctx.count("lad_%s_expected_by_construction" % self.tag)
+            try:
+                T = O.parse_items(o) if o not in BAD else None
+            except (ValueError, IndexError):
+                T = None
+            got = [(t[0], t[1]) for t in T[:len(expect)]] if T is not None else o
+            bad = T is None or len(T) < len(expect) or any(g[0] != e[0] or (e[1] is not None and g[1] != e[1]) for g, e in zip(got, expect))
+            if bad:
+                j = next((i for i, (g, e) in enumerate(zip(got, expect)) if g[0] != e[0] or (e[1] is not None and g[1] != e[1])), len(got)) if T is not None else 0
+                ctx.fail("%s-%s-ladder-short-read-changes-result" % (self.tag, dim), "fault-free run under short reads: op #%d returns %s, expected by construction of the document %s" % (
+                    j, got[j] if T is not None and j < len(got) else str(o)[:60], expect[j] if j < len(expect) else "-"), [self.cases[ti]], [o[:300]], " ".join(e[0] for e in expect)[:300])
         for k, m in enumerate(self.meta):
             if m is None:
                 continue
@@ -242,17 +287,19 @@ def run_text(ctx):
                         fl.append((fi, 1, kind))
                     fl.append((fi, 8, KINDS[fi % 6]))
                     fl.append((fi, 3, KINDS[(fi + 3) % 6]))
-                L.add("kind", max(cap, maxby), bs, d, ops, fl)
+                exp = [(t, None) for t in tk] + [("NONE", len(d))] if all(o == "n" for o in ops) else None
+                L.add("kind", max(cap, maxby), bs, d, ops, fl, expect=exp)
     # ---- T2: index k of the failing read (token-rich document, 1-byte reads, retries of next/read)
     d = text_rich(28)
     n = len(d)
-    ntok = len(text_tokens(ctx, [d])[0])
+    rich = text_tokens(ctx, [d])[0]
+    ntok = len(rich)
     for ops, ra in ((["n"] * (ntok + 3), True), (["r"] * (ntok + 1), True), (["n"] * (ntok + 3), False)):
         fl = []
         for j, fi in enumerate(idx_ladder(n, range(300, 310))):
             fl.append((fi, 1, KINDS[j % 6]))
             fl.append((fi, 8 if not ra else 2, KINDS[(j + 1) % 6]))
-        L.add("index", 24, rep(1, n + 6), d, ops, fl, tries=4, retry_all=ra)
+        L.add("index", 24, rep(1, n + 6), d, ops, fl, tries=4, retry_all=ra, expect=[(t, None) for t in rich])
     # high indices: one op issues tens of thousands of read calls
     BIG = 65600
     big_docs = [(b" " * BIG + b"a=b", ["n", "n", "n", "n", "n"], 16, True),
@@ -261,14 +308,22 @@ def run_text(ctx):
                 (b"x={" + b"{}" * (BIG // 2) + b"} y=z", ["n", "n", "n", "k", "n", "n", "n", "n"], 16, False),
                 (b"h={ a = b }\n" * (BIG // 12) + b"} y=z", ["k", "n", "n", "n", "n"], 64, False),
                 (b"x=rgb" + b"\n\t\t\t" * (BIG // 4) + b"{ 1 2 3 } y=z", ["n", "n", "n", "u", "n", "n", "n", "n"], 16, False),
-                (b"B" * (BIG + 40), ["by%d" % BIG, "by7", "by40"], BIG + 8, False)]
-    for d, ops, cap, ra in big_docs:
+                (b"B" * (BIG + 50), ["by%d" % BIG, "by7", "by40"], BIG + 8, False)]
+    U = lambda b: "U:" + payload(b, True)
+    big_exp = [[(U(b"a"), BIG + 1), ("OP:6", BIG + 2), (U(b"b"), BIG + 3), ("NONE", BIG + 3)],
+               [(U(b"a" * BIG), BIG), ("OP:6", BIG + 1), (U(b"b"), BIG + 2), ("NONE", BIG + 2)],
+               [(U(b"k"), 1), ("OP:6", 2), ("Q:" + payload(b"q" * BIG, True), BIG + 4), (U(b"x"), BIG + 6), ("OP:6", BIG + 7), (U(b"y"), BIG + 8), ("NONE", BIG + 8)],
+               [(U(b"x"), 1), ("OP:6", 2), ("O", 3), ("OK", 3 + 2 * (BIG // 2) + 1), (U(b"y"), None), ("OP:6", None), (U(b"z"), None), ("NONE", None)],
+               [("OK", 12 * (BIG // 12) + 1), (U(b"y"), None), ("OP:6", None), (U(b"z"), None), ("NONE", None)],
+               [(U(b"x"), 1), ("OP:6", 2), (U(b"rgb"), 5), ("OK", 5 + 4 * (BIG // 4) + 9), (U(b"y"), None), ("OP:6", None), (U(b"z"), None), ("NONE", None)],
+               [("B:" + payload(b"B" * BIG, True), BIG), ("B:" + payload(b"B" * 7, True), BIG + 7), ("B:" + payload(b"B" * 40, True), None)]]
+    for (d, ops, cap, ra), exp in zip(big_docs, big_exp):
         n = len(d)
         fl = []
         for j, fi in enumerate([k for k in idx_ladder(n) if k >= 255]):
             fl.append((fi, 1, KINDS[j % 6]))
             fl.append((fi, 2, KINDS[(j + 2) % 6]))
-        L.add("index", cap, rep(1, n + 4), d, ops, fl, tries=4, retry_all=ra, short=True)
+        L.add("index", cap, rep(1, n + 4), d, ops, fl, tries=4, retry_all=ra, short=True, expect=exp)
     # ---- T3: number of consecutive faults, then data (retryable ops), every kind, at several structural positions
     d = b"ab=cd ef={gh=ij} kl"
     n = len(d)
@@ -303,14 +358,18 @@ def run_text(ctx):
                 # read 0 delivers the key and '=', read 1 delivers c bytes of the scalar, read 2 happens with c bytes carried over
                 bs = [lead] + ([c] if c else []) + rep(4096, SC // 4096 + 2)
                 fi = 2 if c else 1
-                L.add("fill", cap, bs, d, ops, [(fi, 1, KINDS[j % 6]), (fi, 2, KINDS[(j + 1) % 6]), (fi, 8, KINDS[(j + 2) % 6])], tries=4, retry_all=ra, short=True)
+                exp = None
+                if cap > SC + 8:
+                    exp = [("U:6b", 1), ("OP:6", 2), (("U:" if name == "unq" else "Q:") + payload(b"v" * SC, True), None), ("U:78", None), ("OP:6", None), ("U:79", None), ("NONE", len(d))]
+                L.add("fill", cap, bs, d, ops, [(fi, 1, KINDS[j % 6]), (fi, 2, KINDS[(j + 1) % 6]), (fi, 8, KINDS[(j + 2) % 6])], tries=4, retry_all=ra, short=True, expect=exp)
     for j, nby in enumerate([k for k in LADDER if k >= 1]):
         d = b"p=" + b"B" * (nby + 3)
         for c in sorted({0, 1, nby // 2, nby - 1}):
             for cap in sorted({nby, nby + 1, nby + 64}):
                 bs = [2] + ([c] if c else []) + rep(4096, nby // 4096 + 2)
                 fi = 2 if c else 1
-                L.add("fill", max(cap, 4), bs, d, ["n", "n", "by%d" % nby, "by3", "n"], [(fi, 1, KINDS[j % 6]), (fi, 3, KINDS[(j + 3) % 6])], tries=5, short=True)
+                L.add("fill", max(cap, 4), bs, d, ["n", "n", "by%d" % nby, "by3", "n"], [(fi, 1, KINDS[j % 6]), (fi, 3, KINDS[(j + 3) % 6])], tries=5, short=True,
+                      expect=[("U:70", 1), ("OP:6", 2), ("B:" + payload(b"B" * nby, True), 2 + nby), ("B:424242", 5 + nby), ("NONE", 5 + nby)] if max(cap, 4) > nby else None)
     # ---- T6: nesting depth at the fault (next() to the bottom / skip_container from the top), 1-byte and 8-byte reads
     for j, dep in enumerate(LADDER):
         inner = b"a={" * dep + b"b=c" + b"}" * dep
@@ -318,12 +377,15 @@ def run_text(ctx):
         bottom = 3 + 3 * dep
         if dep <= 1025:
             ops = ["n"] * (3 + 3 * dep + 3 + dep + 1 + 3 + 2)
-            L.add("depth", 16, rep(1, len(d) + 3), d, ops, [(fi, 1, KINDS[(j + i) % 6]) for i, fi in enumerate((bottom - 1, bottom, bottom + 1, bottom + 3, bottom + 3 + dep))], retry_all=True)
+            exp = [("U:78", 1), ("OP:6", 2), ("O", 3)] + [("U:61", None), ("OP:6", None), ("O", None)] * dep + [("U:62", None), ("OP:6", None), ("U:63", None)] + [("C", None)] * (dep + 1) \
+                + [("U:79", None), ("OP:6", None), ("U:7a", None), ("NONE", len(d))]
+            L.add("depth", 16, rep(1, len(d) + 3), d, ops, [(fi, 1, KINDS[(j + i) % 6]) for i, fi in enumerate((bottom - 1, bottom, bottom + 1, bottom + 3, bottom + 3 + dep))], retry_all=True, expect=exp)
         for d2, bot in ((d, bottom), (b"x={" + b"{" * dep + b"}" * dep + b"} y=z", 3 + dep)):
             for ev, div in ((1, 1), (8, 8), (7, 7)):
                 bs = [3] + rep(ev, (len(d2) - 3) // div + 3)
                 fis = sorted({1, 1 + (bot - 3) // div, 2 + (bot - 3) // div, 1 + (len(d2) - 8) // div})
-                L.add("depth", 16, bs, d2, ["n", "n", "n", "k", "n", "n", "n", "n"], [(fi, 1, KINDS[(j + i) % 6]) for i, fi in enumerate(fis)], short=True)
+                L.add("depth", 16, bs, d2, ["n", "n", "n", "k", "n", "n", "n", "n"], [(fi, 1, KINDS[(j + i) % 6]) for i, fi in enumerate(fis)], short=True,
+                      expect=[("U:78", 1), ("OP:6", 2), ("O", 3), ("OK", len(d2) - 4), ("U:79", len(d2) - 2), ("OP:6", len(d2) - 1), ("U:7a", len(d2)), ("NONE", len(d2))])
     out = L.run("ladder_text_api")
     # the extracted reader model on the short cases of the same runs (canonical rendering, stops at the first failing op)
     mc = []
@@ -384,14 +446,15 @@ def run_bin(ctx):
         L.add("index", 32, rep(1, n + 6), d, ops, fl, tries=4)
     BIG = 65600
     many = enc([("T", 0x2000), ("EQ",), ("O",)] + [("T", 0x100 + (i % 7000)) for i in range(BIG // 2)] + [("C",), ("T", 5)])
-    for d, ops, cap in ((many, ["n", "n", "n", "k", "n", "n", "n"], 16),
-                        (b"B" * (BIG + 40), ["by%d" % BIG, "by7", "by40"], BIG + 8)):
+    for d, ops, cap, exp in ((many, ["n", "n", "n", "k", "n", "n", "n"], 16, [("T:8192", 2), ("EQ", 4), ("O", 6), ("OK", len(many) - 2), ("T:5", len(many)), ("NONE", len(many))]),
+                             (b"B" * (BIG + 50), ["by%d" % BIG, "by7", "by40"], BIG + 8,
+                              [("B:" + payload(b"B" * BIG, True), BIG), ("B:" + payload(b"B" * 7, True), BIG + 7), ("B:" + payload(b"B" * 40, True), BIG + 47)])):
         n = len(d)
         fl = []
         for j, fi in enumerate([k for k in idx_ladder(n) if k >= 255]):
             fl.append((fi, 1, KINDS[j % 6]))
             fl.append((fi, 2, KINDS[(j + 2) % 6]))
-        L.add("index", cap, rep(1, n + 4), d, ops, fl, tries=4, short=True)
+        L.add("index", cap, rep(1, n + 4), d, ops, fl, tries=4, short=True, expect=exp)
     # ---- B3: number of consecutive faults then data
     d = enc([("T", 0x2d83), ("EQ",), ("O",), ("Q", b"ab"), ("EQ",), ("I32", 7), ("C",), ("U", b"kl")])
     n = len(d)
@@ -427,7 +490,7 @@ def run_bin(ctx):
                 lv = sorted(set(k for k in LADDER if k < tot) | {tot - 1})
                 L.add("fill", tot + 3, rep(1, tot + 8), d, ["r", "r", "r", "r", "n"], [(4 + c, 1, KINDS[(j + c) % 6]) for c in lv], tries=4, short=True)
     for j, nby in enumerate([k for k in LADDER if k >= 1]):
-        d = enc([("T", 1)]) + b"B" * (nby + 3)
+        d = enc([("T", 0x21)]) + b"B" * (nby + 3)
         for c in sorted({0, 1, nby // 2, nby - 1}):
             for cap in sorted({nby, nby + 1, nby + 64}):
                 bs = [2] + ([c] if c else []) + rep(4096, nby // 4096 + 2)
@@ -435,7 +498,7 @@ def run_bin(ctx):
                 L.add("fill", max(cap, 4), bs, d, ["n", "by%d" % nby, "by3", "n"], [(fi, 1, KINDS[j % 6]), (fi, 3, KINDS[(j + 3) % 6])], tries=5, short=True)
     # ---- B6: nesting depth at the fault
     for j, dep in enumerate(LADDER):
-        d = enc([("T", 3), ("EQ",), ("O",)] + [("O",)] * dep + [("I32", 5)] + [("C",)] * dep + [("C",), ("T", 4)])
+        d = enc([("T", 0x33), ("EQ",), ("O",)] + [("O",)] * dep + [("I32", 5)] + [("C",)] * dep + [("C",), ("T", 0x44)])
         bottom = 6 + 2 * dep
         if dep <= 1025:
             ops = ["n"] * (2 * dep + 8)
@@ -443,7 +506,8 @@ def run_bin(ctx):
         for ev in (1, 2, 8, 7):
             bs = [6] + rep(ev, (len(d) - 6) // ev + 3)
             fis = sorted({1, 1 + (bottom - 6) // ev, 2 + (bottom - 6) // ev, 1 + (len(d) - 9) // ev})
-            L.add("depth", 16, bs, d, ["r", "r", "r", "k", "n", "n", "n"], [(fi, 1, KINDS[(j + i) % 6]) for i, fi in enumerate(fis)], short=True)
+            L.add("depth", 16, bs, d, ["r", "r", "r", "k", "n", "n", "n"], [(fi, 1, KINDS[(j + i) % 6]) for i, fi in enumerate(fis)], short=True,
+                  expect=[("T:51", 2), ("EQ", 4), ("O", 6), ("OK", len(d) - 2), ("T:68", len(d)), ("NONE", len(d)), ("NONE", len(d))])
     L.run("ladder_bin_api")
     # model = implementation on the short cases (bl.rops: plain F events, no retry, position after every failed call)
     mc = []
@@ -465,7 +529,7 @@ class DeLad:
         self.ctx = ctx
         self.specs = []      # (dim, clean case, [(fault case, k, persistent)], model?)
 
-    def add(self, dim, mk, faults, model=True, mincalls=None):
+    def add(self, dim, mk, faults, model=True, mincalls=None, check=None):
         """mk(suffix) -> case line; faults = [(k, 'F'|'P', kind, run)]; mincalls = a number of read calls a SUCCESSFUL
         fault-free run surely issues (by construction of the schedule: n bytes in chunks of c need n/c calls + the probe
         for the end), used when the kind does not print the call count"""
@@ -473,7 +537,7 @@ class DeLad:
         for k, kf, kind, run in faults:
             sfx = "@%d%s%d" % (k, kf, kind) + ("x%d" % run if run != 1 else "")
             fc.append((mk(sfx), k, kf == "P", mincalls))
-        self.specs.append((dim, mk(""), fc, model))
+        self.specs.append((dim, mk(""), fc, model, check))
 
     def run(self, name):
         ctx = self.ctx
@@ -487,6 +551,12 @@ class DeLad:
             cb = len(ci) - len(clean)
             fcases, fmeta = [], []
             for j, s in enumerate(sp):
+                # the fault-free value, by construction of the document (check = predicate on the printed value)
+                if s[4] is not None:
+                    ctx.count("lad_de_expected_by_construction")
+                    if ci[cb + j] in BAD or not s[4](de_val(ci[cb + j])[0]):
+                        ctx.fail("de-ladder-%s-short-read-changes-result" % s[0], "fault-free run under short reads returns %s, not the value the document was built to hold" % ci[cb + j][:150],
+                                 [s[1]], [ci[cb + j][:300]])
                 for (c, k, pers, run) in s[2]:
                     fcases.append(c); fmeta.append((s[0], ci[cb + j], k, pers, run, s[1]))
             fi, _ = ctx.correspond(st + "_faults", fcases, nontrivial=lambda c, i: i.startswith("ERR:io"), model=model)
@@ -604,28 +674,28 @@ def run_de(ctx):
         if dep <= 257:
             typed = ("struct(%s:" % H("a")) * dep + "struct(%s:i32)" % H("b") + ")" * dep
             txt2 = b"a={" * dep + b"b=1" + b"}" * dep
-            L.add("depth", tcase(16, "1*", "w1252", typed, txt2), fl, model=dep <= 130)
+            L.add("depth", tcase(16, "1*", "w1252", typed, txt2), fl, model=dep <= 130, check=lambda v, dep=dep: v.count("(struct") == dep + 1 and v.count("(i 1)") == 1)
             data = (s(b"a") + D.EQ + D.OPEN) * dep + s(b"b") + D.EQ + i32(1) + D.CLOSE * dep
             bshape = "map(" * (dep + 1) + "i32" + ")" * (dep + 1)
             bb = 9 * dep
             ks = sorted({0, bb, bb + 1, bb + 5, bb + 7, bb + 10, bb + 12 + dep, bb + 13 + 2 * dep})
-            L.add("depth", bcase(32, "1*", bshape, data), [(k, "FP"[i % 2], KINDS[(i + j) % 6], 1) for i, k in enumerate(ks)], model=dep <= 130)
+            L.add("depth", bcase(32, "1*", bshape, data), [(k, "FP"[i % 2], KINDS[(i + j) % 6], 1) for i, k in enumerate(ks)], model=dep <= 130, check=lambda v, dep=dep: v.count("(map") == dep + 1 and v.count("(i 1)") == 1)
         # an ignored container of that depth (skip_container inside the deserializer), through the typed target
         ign = b"unk={" + b"{" * dep + b"1" + b"}" * dep + b"} last=end"
         ks = sorted({0, 4, 5 + dep, 6 + dep, 7 + 2 * dep, 9 + 2 * dep, 14 + 2 * dep})
-        L.add("depth", pcase("text", "onlylast", "reader:16:1*", "utf8", ign), [(k, "FP"[i % 2], KINDS[(i + j) % 6], 1) for i, k in enumerate(ks)], model=False)
+        L.add("depth", pcase("text", "onlylast", "reader:16:1*", "utf8", ign), [(k, "FP"[i % 2], KINDS[(i + j) % 6], 1) for i, k in enumerate(ks)], model=False, check=lambda v: 'last:Some("end")' in v)
         bign = O.bin_str("unk", False) + b"\x01\x00\x03\x00" + b"\x03\x00" * dep + b"\x04\x00" * dep + b"\x04\x00" + O.bin_str("last", False) + b"\x01\x00" + O.bin_str("end")
         ks = sorted({0, 8, 11 + 2 * dep, 12 + 2 * dep, 13 + 4 * dep, 15 + 4 * dep})
-        L.add("depth", pcase("bin", "onlylast", "reader:32:1*", "eu4", bign), [(k, "FP"[i % 2], KINDS[(i + j) % 6], 1) for i, k in enumerate(ks)], model=False)
+        L.add("depth", pcase("bin", "onlylast", "reader:32:1*", "eu4", bign), [(k, "FP"[i % 2], KINDS[(i + j) % 6], 1) for i, k in enumerate(ks)], model=False, check=lambda v: 'last:Some("end")' in v)
     for dep in (4096, 65536):
         ign = b"unk={" + b"{" * dep + b"}" * dep + b"} last=end"
         for sched, div in (("8*", 8), ("4096*", 4096)):
             ks = sorted({0, 1, (5 + dep) // div, (5 + dep) // div + 1, (5 + 2 * dep) // div, (5 + 2 * dep) // div + 1})
-            L.add("depth", pcase("text", "onlylast", "reader:32:" + sched, "utf8", ign), [(k, "FP"[i % 2], KINDS[i % 6], 1) for i, k in enumerate(ks)], model=False)
+            L.add("depth", pcase("text", "onlylast", "reader:32:" + sched, "utf8", ign), [(k, "FP"[i % 2], KINDS[i % 6], 1) for i, k in enumerate(ks)], model=False, check=lambda v: 'last:Some("end")' in v)
         bign = O.bin_str("unk", False) + b"\x01\x00\x03\x00" + b"\x03\x00" * dep + b"\x04\x00" * dep + b"\x04\x00" + O.bin_str("last", False) + b"\x01\x00" + O.bin_str("end")
         for sched, div in (("8*", 8), ("4096*", 4096)):
             ks = sorted({0, 1, (11 + 2 * dep) // div, (11 + 2 * dep) // div + 1, (11 + 4 * dep) // div, (11 + 4 * dep) // div + 1})
-            L.add("depth", pcase("bin", "onlylast", "reader:32:" + sched, "eu4", bign), [(k, "FP"[i % 2], KINDS[i % 6], 1) for i, k in enumerate(ks)], model=False)
+            L.add("depth", pcase("bin", "onlylast", "reader:32:" + sched, "eu4", bign), [(k, "FP"[i % 2], KINDS[i % 6], 1) for i, k in enumerate(ks)], model=False, check=lambda v: 'last:Some("end")' in v)
     # ---- D3: number of siblings / index of the failing read
     nsib = 420
     txt = b" ".join(b"k%d=%d" % (i, i) for i in range(nsib)) + b"\n"
@@ -634,7 +704,7 @@ def run_de(ctx):
     for doc, shp in ((txt, "map(i32)"), (arr, "struct(%s:seq(i32),%s:i32)" % (H("a"), H("b"))), (dup, "struct(%s*:i32,%s:opt(map(i32)))" % (H("a"), H("b")))):
         n = len(doc)
         ks = idx_ladder(n, range(298, 304))
-        L.add("index", tcase(24, "1*", "utf8", shp, doc), [(k, "FP"[i % 2], KINDS[i % 6], 1) for i, k in enumerate(ks)] + [(k, "P", 1, 1) for k in (300, 1024, n - 1)], model=False)
+        L.add("index", tcase(24, "1*", "utf8", shp, doc), [(k, "FP"[i % 2], KINDS[i % 6], 1) for i, k in enumerate(ks)] + [(k, "P", 1, 1) for k in (300, 1024, n - 1)], model=False, check=lambda v: v.count("(i ") >= nsib)
         ks = [k for k in LADDER if k <= n // 3 + 1]
         L.add("index", tcase(24, "3*", "utf8", shp, doc), [(k, "FP"[i % 2], KINDS[(i + 2) % 6], 1) for i, k in enumerate(ks)], model=False)
     bsib = b"".join(s(b"k%d" % i) + D.EQ + i32(i) for i in range(nsib))
@@ -642,7 +712,7 @@ def run_de(ctx):
     for data, shp in ((bsib, "map(i32)"), (barr, "struct(%s:seq(i32),%s:i32)" % (H("a"), H("b")))):
         n = len(data)
         ks = idx_ladder(n, range(298, 304))
-        L.add("index", bcase(32, "1*", shp, data), [(k, "FP"[i % 2], KINDS[i % 6], 1) for i, k in enumerate(ks)] + [(k, "P", 4, 1) for k in (300, 1024, n - 1)], model=False)
+        L.add("index", bcase(32, "1*", shp, data), [(k, "FP"[i % 2], KINDS[i % 6], 1) for i, k in enumerate(ks)] + [(k, "P", 4, 1) for k in (300, 1024, n - 1)], model=False, check=lambda v: v.count("(i ") >= nsib)
     # ---- D4: consecutive failing read calls (the deserializer has no retry of its own: the first one ends the call)
     runs = list(range(1, 11)) + [16, 17, 255, 256, 257]
     txt, shp = tdocs[0]
@@ -659,20 +729,20 @@ def run_de(ctx):
         for path, chunk in (("freader:4096*", 4096), ("freader:1000,1*", None), ("reader:%d:7*" % (ln + 16), 7), ("reader:%d:%d,1,%d*" % (ln + 16, ln + 1, ln + 15), None)):
             ncall = (n // chunk + 2) if chunk else 6
             ks = sorted(set(range(min(ncall, 8))) | {ncall - 1, ncall // 2})
-            L.add("buffer", pcase("text", "plaus", path, "utf8", txt), [(k, "FP"[i % 2], KINDS[(i + j) % 6], 1) for i, k in enumerate(ks)], model=False)
+            L.add("buffer", pcase("text", "plaus", path, "utf8", txt), [(k, "FP"[i % 2], KINDS[(i + j) % 6], 1) for i, k in enumerate(ks)], model=False, check=lambda v, val=val: 'last:Some("end")' in v and ('e:"' + val.decode() + '"') in v)
         bdat = O.bin_str("e", False) + b"\x01\x00" + struct.pack("<HH", 0x000f, ln) + val + O.bin_str("unk", False) + b"\x01\x00\x03\x00" + (struct.pack("<Hi", 0x000c, 5) * (ln // 6)) + b"\x04\x00" \
             + O.bin_str("last", False) + b"\x01\x00" + O.bin_str("end")
         n = len(bdat)
         for path, chunk in (("freader:4096*", 4096), ("freader:1000,1*", None), ("reader:%d:7*" % (ln + 16), 7), ("reader:%d:%d,1,%d*" % (ln + 16, ln + 9, ln + 15), None)):
             ncall = (n // chunk + 2) if chunk else 6
             ks = sorted(set(range(min(ncall, 8))) | {ncall - 1, ncall // 2})
-            L.add("buffer", pcase("bin", "plaus", path, "eu4", bdat), [(k, "FP"[i % 2], KINDS[(i + j) % 6], 1) for i, k in enumerate(ks)], model=False)
+            L.add("buffer", pcase("bin", "plaus", path, "eu4", bdat), [(k, "FP"[i % 2], KINDS[(i + j) % 6], 1) for i, k in enumerate(ks)], model=False, check=lambda v, val=val: 'last:Some("end")' in v and ('e:"' + val.decode() + '"') in v)
     # the longest binary string (u16 length 65535) as a value, through the explicit-buffer reader
     for ln in (65533, 65534, 65535):
         val = b"s" * ln
         bdat = O.bin_str("e", False) + b"\x01\x00" + struct.pack("<HH", 0x000f, ln) + val + O.bin_str("last", False) + b"\x01\x00" + O.bin_str("end")
         for path, ncall in (("reader:%d:4096*" % (ln + 4), 20), ("reader:%d:9,%d,1*" % (ln + 64, ln), 12)):
-            L.add("buffer", pcase("bin", "plaus", path, "eu4", bdat), [(k, "FP"[k % 2], KINDS[k % 6], 1) for k in range(ncall)], model=False)
+            L.add("buffer", pcase("bin", "plaus", path, "eu4", bdat), [(k, "FP"[k % 2], KINDS[k % 6], 1) for k in range(ncall)], model=False, check=lambda v, val=val: 'last:Some("end")' in v and ('e:"' + val.decode() + '"') in v)
     L.run("ladder_de")
     ctx.count("ladder_de_specs", len(L.specs))
 
